@@ -207,97 +207,66 @@ Proof. exact (@glue_inplace_guards_atoms). Qed.
 Print Assumptions C08_tie_inplace_guards_atoms.
 
 Theorem C08_writes_euclid :
-  w_euclid.w_euclid =
-       ["EuclideanCodebook.forward:embed_onehot:setitem"; "EuclideanCodebook.forward:self:expire_codes_";
-        "EuclideanCodebook.forward:self:init_embed_";
-        "EuclideanCodebook.init_embed_:self.cluster_size.data:copy_";
-        "EuclideanCodebook.init_embed_:self.embed.data:copy_";
-        "EuclideanCodebook.init_embed_:self.embed_avg.data:copy_";
-        "EuclideanCodebook.init_embed_:self.initted.data:copy_";
-        "EuclideanCodebook.replace:self.cluster_size.data[ind]:setitem";
-        "EuclideanCodebook.replace:self.embed.data[ind]:setitem";
-        "EuclideanCodebook.replace:self.embed_avg.data[ind]:setitem";
-        "EuclideanCodebook.update_ema:self.embed.data:copy_"].
+  w_euclid.w_euclid = pinned_w_euclid.
 Proof. exact (@pin_w_euclid). Qed.
 Print Assumptions C08_writes_euclid.
 
 Theorem C08_writes_cosine :
-  w_cosine.w_cosine =
-       ["CosineSimCodebook.forward:embed_onehot:setitem"; "CosineSimCodebook.forward:self:expire_codes_";
-        "CosineSimCodebook.forward:self:init_embed_";
-        "CosineSimCodebook.init_embed_:self.cluster_size.data:copy_";
-        "CosineSimCodebook.init_embed_:self.embed.data:copy_";
-        "CosineSimCodebook.init_embed_:self.embed_avg.data:copy_";
-        "CosineSimCodebook.init_embed_:self.initted.data:copy_";
-        "CosineSimCodebook.replace:self.cluster_size.data[ind]:setitem";
-        "CosineSimCodebook.replace:self.embed.data[ind]:setitem";
-        "CosineSimCodebook.replace:self.embed_avg.data[ind]:setitem";
-        "CosineSimCodebook.update_ema:self.embed.data:copy_"].
+  w_cosine.w_cosine = pinned_w_cosine.
 Proof. exact (@pin_w_cosine). Qed.
 Print Assumptions C08_writes_cosine.
 
 Theorem C08_writes_vq :
-  w_vq.w_vq =
-       ["VectorQuantize.forward:embed_ind:masked_fill_"; "VectorQuantize.forward:loss:backward()";
-        "VectorQuantize.expire_codes_:self._codebook:expire_codes_";
-        "VectorQuantize.update_in_place_optimizer:self.in_place_codebook_optimizer:step()";
-        "VectorQuantize.update_in_place_optimizer:self.in_place_codebook_optimizer:zero_grad()";
-        "gumbel_noise:torch.zeros_like(t):uniform_"; "kmeans:new_means:scatter_add_";
-        "ema_inplace:old.mul_(decay):add_"; "ema_inplace:old:lerp_"; "ema_inplace:old:mul_";
-        "batched_bincount:target:scatter_add_"].
+  w_vq.w_vq = pinned_w_vq.
 Proof. exact (@pin_w_vq). Qed.
 Print Assumptions C08_writes_vq.
 
 Theorem C08_no_writes_fsq :
-  w_fsq.w_fsq = [].
+  w_fsq.w_fsq = pinned_w_fsq.
 Proof. exact (@pin_w_fsq). Qed.
 Print Assumptions C08_no_writes_fsq.
 
 Theorem C08_no_writes_lfq :
-  w_lfq.w_lfq = [].
+  w_lfq.w_lfq = pinned_w_lfq.
 Proof. exact (@pin_w_lfq). Qed.
 Print Assumptions C08_no_writes_lfq.
 
 Theorem C08_no_writes_simvq :
-  w_simvq.w_simvq = [].
+  w_simvq.w_simvq = pinned_w_simvq.
 Proof. exact (@pin_w_simvq). Qed.
 Print Assumptions C08_no_writes_simvq.
 
 Theorem C08_writes_rpq :
-  w_rpq.w_rpq = ["RandomProjectionQuantizer.forward:self.vq:eval()"].
+  w_rpq.w_rpq = pinned_w_rpq.
 Proof. exact (@pin_w_rpq). Qed.
 Print Assumptions C08_writes_rpq.
 
 Theorem C08_writes_rvq :
-  w_rvq.w_rvq = ["ResidualVQ.forward:shared_layer:expire_codes_"].
+  w_rvq.w_rvq = pinned_w_rvq.
 Proof. exact (@pin_w_rvq). Qed.
 Print Assumptions C08_writes_rvq.
 
 Theorem C08_no_writes_rfsq :
-  w_rfsq.w_rfsq = [].
+  w_rfsq.w_rfsq = pinned_w_rfsq.
 Proof. exact (@pin_w_rfsq). Qed.
 Print Assumptions C08_no_writes_rfsq.
 
 Theorem C08_no_writes_rlfq :
-  w_rlfq.w_rlfq = [].
+  w_rlfq.w_rlfq = pinned_w_rlfq.
 Proof. exact (@pin_w_rlfq). Qed.
 Print Assumptions C08_no_writes_rlfq.
 
 Theorem C08_no_writes_rsvq :
-  w_rsvq.w_rsvq = [].
+  w_rsvq.w_rsvq = pinned_w_rsvq.
 Proof. exact (@pin_w_rsvq). Qed.
 Print Assumptions C08_no_writes_rsvq.
 
 Theorem C08_writes_latent :
-  w_lq.w_lq =
-       ["LatentQuantize.forward:loss:backward()";
-        "LatentQuantize.forward:self.in_place_codebook_optimizer:step()";
-        "LatentQuantize.forward:self.in_place_codebook_optimizer:zero_grad()"].
+  w_lq.w_lq = pinned_w_lq.
 Proof. exact (@pin_w_lq). Qed.
 Print Assumptions C08_writes_latent.
 
 Theorem C08_rpq_forces_eval :
-  o_rpq_eval.o_rpq_eval = [("self.vq.eval", ""); ("self.vq", "x")].
+  o_rpq_eval.o_rpq_eval = pinned_o_rpq_eval.
 Proof. exact (@pin_o_rpq_eval). Qed.
 Print Assumptions C08_rpq_forces_eval.
-
